@@ -57,6 +57,7 @@ from hypothesis import strategies as st
 
 from vp.core.engine import HarnessError, Obligation, Property, site_of
 from vp.gen import agents as ag
+from vp.props import c17_loops
 
 NAME = "get_experiences_samples"
 GAE_FILES = ("ppo.py", "ippo.py", "algo_utils.py")  # where the GAE / regrouping / flattening code lives
@@ -817,6 +818,12 @@ PROPERTY = Property(
         Obligation("ippo_gae_rows", run_case, strategy=ippo_strategy, enumerate=ippo_grid,
                    examples={"quick": 32, "thorough": 250}, shards={"quick": 5, "thorough": 16},
                    shrink_budget={"quick": 25, "thorough": 300}),
+        Obligation("ppo_loop_records", c17_loops.run_loop, strategy=c17_loops.ppo_loop_strategy,
+                   examples={"quick": 40, "thorough": 400}, shards={"quick": 3, "thorough": 16},
+                   shrink_budget={"quick": 40, "thorough": 300}),
+        Obligation("ippo_loop_records", c17_loops.run_loop, strategy=c17_loops.ippo_loop_strategy,
+                   examples={"quick": 30, "thorough": 300}, shards={"quick": 3, "thorough": 16},
+                   shrink_budget={"quick": 40, "thorough": 300}),
     ],
     assumptions=[
         "stored dones[t] is the done flag produced by step t-1 (dones[0] = 0), next_done the one produced by the last step - as "
